@@ -243,7 +243,7 @@ class Connection(Stateful):
         """
         LOGGER.debug('Connection Opening')
         self.set_state(self.OPENING)
-        self._exceptions = []
+        del self._exceptions[:]
         self._channels = {}
         self._last_channel_id = None
         self._io.open()
